@@ -4,3 +4,10 @@ package routing
 
 // VerifChecksumIEEEString exposes the router's hand-rolled CRC.
 func VerifChecksumIEEEString(s string) uint32 { return checksumIEEEString(s) }
+
+// VerifRouterWithTable returns a Router whose current table is t.
+func VerifRouterWithTable(t *Table) *Router {
+	r := NewRouter()
+	r.current.Store(t)
+	return r
+}
